@@ -15,29 +15,35 @@ removes `plain` wherever the operand has to become a NUMBER:
   left-behind operand over `t₂` completes iff the directive met with `t₂` already known completes, and then with the
   very same resulting data expression and assembler state (hence the same bytes at the same address);
   `du_value_order_independent_full` is the value form.
-* `stmt_outcome_order_independent`: for an instruction statement (any mnemonic, any operand trees), first attempt over
-  `t₁` deferred: the re-run from the queued state over `t₂` completes iff the fresh assembly over `t₂` completes, and
-  with the same instruction (so the same bytes; `placeholder_length` of Props/C08Asm.lean gives the length).
-  Operand positions of kind `Immediate` and `Offset` (branch / `BL` / `ADR` targets, `SVC`, `BKPT`, `UDF`, the `#0` of
-  `RSBS`) and the non-evaluated kinds need NO condition.  At the positions of kind `ImmReg / Address / AddrOffset`
-  (where a register or `[Rn + …]` shape may result) the operand tree has to satisfy `LeftStableArg t₁ t₂`: every value
-  the first attempt completed before it stopped is a fixed point of `evaluate` — the EXACT condition under which the
-  tree-level retry holds (Lemmas/SimpStable.lean), implied by `plain` (`leftStable_of_plain`) and strictly weaker
-  (`[(r1 + 1) + 1 + x]` below).
+* `stmt_outcome_order_independent_partial`: for an instruction statement (any mnemonic, any operand trees), first
+  attempt over `t₁` deferred: the re-run from the queued state over `t₂` completes iff the fresh assembly over `t₂`
+  completes, and with the same instruction (so the same bytes; `placeholder_length` of Props/C08Asm.lean gives the
+  length).  Operand positions of kind `Immediate` and `Offset` (branch / `BL` / `ADR` targets, `SVC`, `BKPT`, `UDF`, the
+  `#0` of `RSBS`) and the non-evaluated kinds need NO condition.  At the positions of kind `ImmReg / Address /
+  AddrOffset` (where a register or `[Rn + …]` shape may result) the operand tree has to satisfy `LeftStableArg t₁ t₂`:
+  every value the first attempt completed before it stopped is a fixed point of `evaluate` — the EXACT condition under
+  which the tree-level retry holds (Lemmas/SimpStable.lean), implied by `plain` (`leftStable_of_plain`), strictly weaker
+  (`[(r1 + 1) + 1 + x]` below) and computable (`leftStable_checked`).
 * `stmt_outcome_order_independent_number`: hence no condition at all for every mnemonic without such a position.
 * `const_never_from_register` (the reason): an operand whose evaluation ends in a number contains no register, however
   often the evaluation was interrupted.
 
-FULL-STRENGTH STATEMENT, NOT PROVED for the `ImmReg / Address / AddrOffset` positions (kept visible):
+FULL-STRENGTH STATEMENT — **FALSE, of the model and of the real assembler** (finding, `order_dependent_witness`,
+`stmt_outcome_order_independent_full_false` below):
     theorem stmt_outcome_order_independent_full (hs : Table.Sub t₁ t₂) (hn : Table.NoDef t₁)
         (h1 : Front.build addr name args (frontEval t₁) true = .deferred c fs1) (i : Instr) :
         (∃ fs2, Front.assemble fs1 (frontEval t₂) false = (fs2, .completed) ∧ fs2.instr = i) ↔
           Front.build addr name args (frontEval t₂) true = .completed i
-  What is missing: that a completed value which is NOT a fixed point of `evaluate` (found only of the form
-  `… -(l - r) …` with registers in `l`, `r`) can never be simplified to `Rn`, `[Rn]`, `[Rn + Rm]`, `[Rn ± c]` on either
-  path, i.e. a normal-form theorem for the outputs of `evaluate`.  An exhaustive search over all operand trees of
-  nesting depth ≤ 3 (and a sampled one of depth ≤ 5) over `{r0, r1, x, 0, ±1, 2}` × `{+ - * / ^, unary -}` found no
-  statement on which the two paths differ in success or in the accepted value; see the builder's report.
+  Witness: `.addr 0x20000000; LDRB r2, [-(-1 - r0) * x]; .const x, 1;` assembles (bytes `42 78` = `LDRB r2, [r0, #1]`);
+  with `.const x, 1;` moved ABOVE the instruction the same statement is refused (`argument #3 for LDRB is out of range`).
+  Cause: the `Negate` arm of `simplify_raw` rewrites `-(l - r)` to `r - l` WITHOUT neutralizing the new node; for a
+  negative constant `l` (or a `Negate` `l`) the result `r0 - (-1)` is not in neutral form.  A later step that hands its
+  operand back unchanged (`* 1`, `/ 1`, `<< 0`, `>> 0`, `| 0`, `^ 0`, `& -1`) keeps it, and `addr_off` refuses
+  `r0 - (-1)`; the retry evaluates the left-behind `r0 - (-1)` once more, which normalises it to `r0 + 1`.  The guard
+  `LeftStableArg` is exactly what excludes it (`leftStableArgB … = false` for the witness).
+  The guard is sufficient, not necessary (`exTower` below): what separates it from the truth is a normal-form theorem
+  for the outputs of `evaluate` modulo the two non-neutralized `Negate` results `-(l - r)` [from `0 - (l - r)`] and
+  `r - (-k)`, `r - (-n)` [from `-(l - r)`].
 
 `NoDef t₁` (no `.global/.import`-deferred entry in the table of the first attempt) is inherited from Props/C08Asm.lean.
 -/
@@ -92,7 +98,7 @@ theorem du_bytes_order_independent {t₁ t₂ : Table} (hs : Table.Sub t₁ t₂
 over `t₂ ⊇ t₁` completes with the instruction `i` iff the fresh assembly of the same statement over `t₂` completes with
 `i`.  Condition only at the `ImmReg / Address / AddrOffset` positions: the exact tree-level retry condition
 `LeftStableArg` (implied by `plain`). -/
-theorem stmt_outcome_order_independent {t₁ t₂ : Table} (hs : Table.Sub t₁ t₂) (hn : Table.NoDef t₁) (addr : Nat)
+theorem stmt_outcome_order_independent_partial {t₁ t₂ : Table} (hs : Table.Sub t₁ t₂) (hn : Table.NoDef t₁) (addr : Nat)
     (name : Bytes) (args : List Arg) (c : Bytes) (fs1 : Front.St)
     (h1 : Front.build addr name args (frontEval t₁) true = .deferred c fs1)
     (hp : ∀ t, Front.mnemonic name = some t → ∀ p ∈ List.zip (Front.kinds t) args, p.1.shape = true →
@@ -159,7 +165,7 @@ theorem stmt_outcome_order_independent_number {t₁ t₂ : Table} (hs : Table.Su
     (hk : ∀ t, Front.mnemonic name = some t → ∀ k ∈ Front.kinds t, k.shape = false) (i : Instr) :
     (∃ fs2, Front.assemble fs1 (frontEval t₂) false = (fs2, .completed) ∧ fs2.instr = i) ↔
       Front.build addr name args (frontEval t₂) true = .completed i := by
-  apply stmt_outcome_order_independent hs hn addr name args c fs1 h1
+  apply stmt_outcome_order_independent_partial hs hn addr name args c fs1 h1
   intro t hm p hpz hsh
   have := hk t hm p.1 (List.of_mem_zip hpz).1
   rw [this] at hsh
@@ -293,7 +299,7 @@ open Trion
 
 /-- the exact condition is CHECKABLE: `leftStableArgB t₁ t₂ a` runs `evaluate` over `t₁` along the path to the stop and
 once more over `t₂` on every value completed on the way; `true` discharges the hypothesis of
-`stmt_outcome_order_independent` for the concrete statement and tables -/
+`stmt_outcome_order_independent_partial` for the concrete statement and tables -/
 theorem leftStable_checked {t₁ t₂ : Table} {a : Arg} (h : leftStableArgB t₁ t₂ a = true) : LeftStableArg t₁ t₂ a :=
   leftStableArgB_sound h
 
@@ -308,5 +314,72 @@ example :
       (.addr (.bin .add (.bin .mul (.ident [114, 49]) (.const 4)) (.ident [120]))) = true ∧
     leftStableArgB [] [([120], some 1)] exNegTree = false ∧
     leftStableArgB [] [([120], some (-2))] exTower = false := ⟨rfl, rfl, rfl, rfl, rfl⟩
+
+end Trion.Asm
+
+namespace Trion.Asm
+open Trion
+
+/-! ### the finding: the full-strength statement is false -/
+
+/-- the operand of `LDRB r2, [-(-1 - r0) * x]` as the parser delivers it -/
+def exOrder : Arg :=
+  .addr (.bin .mul (.neg (.bin .sub (.neg (.const 1)) (.ident [114, 48]))) (.ident [120]))
+
+/-- C08 FINDING (witness)  `LDRB r2, [-(-1 - r0) * x]` with `x = 1`:
+defined BELOW — the first attempt is deferred leaving `[(r0 - (-1)) * x]`, the re-run completes with
+`LDRB r2, [r0, #1]`; defined ABOVE — the fresh assembly is refused with `ValueRange` (argument #3).
+Replayed on the real assembler (`trias`, both orders): bytes `42 78` / "argument #3 for LDRB is out of range". -/
+theorem order_dependent_witness :
+    (∃ fs1, Front.build 0 [76, 68, 82, 66] [.ident [114, 50], exOrder] (frontEval []) true = .deferred [120] fs1 ∧
+      fs1.args = [.ident [114, 50],
+        .addr (.bin .mul (.bin .sub (.ident [114, 48]) (.const (-1))) (.ident [120]))] ∧
+      ∃ fs2, Front.assemble fs1 (frontEval [([120], some 1)]) false = (fs2, .completed) ∧
+        fs2.instr = .ldrb 2 0 (.imm 1)) ∧
+    (∃ st, Front.build 0 [76, 68, 82, 66] [.ident [114, 50], exOrder] (frontEval [([120], some 1)]) true =
+      .error (.valueRange 2) st) ∧
+    leftStableArgB [] [([120], some 1)] exOrder = false :=
+  ⟨⟨_, rfl, rfl, _, rfl, rfl⟩, ⟨_, rfl⟩, rfl⟩
+
+/-- C08 FINDING  The full-strength statement-level property does not hold: there are a statement and tables
+`t₁ ⊆ t₂` for which defined-below assembles and defined-above is diagnosed. -/
+theorem stmt_outcome_order_independent_full_false :
+    ¬ (∀ (t₁ t₂ : Table) (addr : Nat) (name : Bytes) (args : List Arg) (c : Bytes) (fs1 : Front.St),
+        Table.Sub t₁ t₂ → Table.NoDef t₁ → Front.build addr name args (frontEval t₁) true = .deferred c fs1 →
+        ∀ i : Instr, (∃ fs2, Front.assemble fs1 (frontEval t₂) false = (fs2, .completed) ∧ fs2.instr = i) ↔
+          Front.build addr name args (frontEval t₂) true = .completed i) := by
+  intro h
+  obtain ⟨⟨fs1, hb, _, fs2, ha, hi⟩, ⟨st, he⟩, _⟩ := order_dependent_witness
+  have := (h [] [([120], some 1)] 0 [76, 68, 82, 66] [.ident [114, 50], exOrder] [120] fs1
+    (fun _ _ h => by simp [Table.find] at h) (fun _ h => by simp [Table.find] at h) hb (.ldrb 2 0 (.imm 1))).1
+    ⟨fs2, ha, hi⟩
+  rw [he] at this
+  cases this
+
+end Trion.Asm
+
+namespace Trion.Asm
+open Trion
+
+/-! ### the finding on the whole-pipeline model (`Asm.run`: lexer, parser, evaluator, front end, codec, regions, tasks) -/
+
+def exBelow : Bytes := bytesOf ".addr 0x20000000;\nLDRB r2, [-(-1 - r0) * x];\n.const x, 1;\n"
+def exAbove : Bytes := bytesOf ".addr 0x20000000;\n.const x, 1;\nLDRB r2, [-(-1 - r0) * x];\n"
+def exFs (d : Bytes) : Bytes → Option Bytes := fun p => if p = [109] then some d else none
+
+/-- success, number of diagnostics, image -/
+def exSummary (r : Result) : Option (Bool × Nat × List (Nat × Bytes)) :=
+  match r with
+  | .done o => some (o.success, o.diags.length, o.image)
+  | _ => none
+
+/-- `x` defined BELOW the instruction: the project assembles, image `42 78` (`LDRB r2, [r0, #1]`) at 0x20000000 -/
+theorem order_dependent_below : exSummary (run (exFs exBelow) [109]) = some (true, 0, [(536870912, [66, 120])]) := by
+  decide +kernel
+
+/-- `x` defined ABOVE the instruction: the same statement is diagnosed (twice: at the statement and in its task), the
+placeholder `BE BE` stays in the image and the run fails -/
+theorem order_dependent_above : exSummary (run (exFs exAbove) [109]) = some (false, 2, [(536870912, [190, 190])]) := by
+  decide +kernel
 
 end Trion.Asm
